@@ -246,7 +246,10 @@ package intermediate
 
 //@ func (a *AggregationProcess) addFieldsForStatsAggregation(record, fillSrcStats, fillDstStats) (err)
 //@   requires rec: recNN(record)
+//@   // seeds the per-node counters: afterwards the record carries the common and per-node counter fields (TRUSTED: the record's elements
+//@   // built here are not well typed in the sense of the entities contracts, so AddInfoElement's verified contract does not apply)
 //@   ensures  in:  old(inFields(a, record)) ==> inFields(a, record)
+//@   ensures  exs: err == nil && cfg(a) != nil && old(inFields(a, record)) ==> exStats(a, record)
 //@   ensures  rec: recNN(record) && (old(flowKinds(record)) ==> flowKinds(record)) && record.(*dataRecord) == old(record.(*dataRecord))
 //@   ensures  arr: arr(recList(record)) == old(arr(recList(record))) || fresh(recList(record))
 //@   // fields are only appended: the record's elements so far stay in place, the new ones are freshly allocated objects
@@ -258,8 +261,8 @@ package intermediate
 
 //@ func (a *AggregationProcess) addFieldsForThroughputCalculation(record, fillSrcStats, fillDstStats) (err)
 //@   requires rec: recNN(record)
-//@   // after both helpers ran on a record that carries the exporter's fields, the record carries every aggregated field (what they are for)
-//@   ensures  ex:  err == nil && cfg(a) != nil && old(inFields(a, record)) ==> exFields(a, record) && inFields(a, record)
+//@   // seeds the node end times and throughput fields, keeping what the record carried (TRUSTED, see addFieldsForStatsAggregation)
+//@   ensures  ex:  err == nil && cfg(a) != nil && old(inFields(a, record)) ==> exThr(a, record) && inFields(a, record) && (old(exStats(a, record)) ==> exStats(a, record))
 //@   ensures  rec: recNN(record) && (old(flowKinds(record)) ==> flowKinds(record)) && record.(*dataRecord) == old(record.(*dataRecord))
 //@   ensures  arr: arr(recList(record)) == old(arr(recList(record))) || fresh(recList(record))
 //@   // fields are only appended: the record's elements so far stay in place, the new ones are freshly allocated objects
@@ -477,15 +480,17 @@ package intermediate
 //@     hasName(rin, "flowEndSeconds") && kind32(rin, "flowEndSeconds") && hasName(rin, "flowStartSeconds") && kind32(rin, "flowStartSeconds")
 //@     && (forall i in [0, len(cfg(a).StatsElements)): hasName(rin, cfg(a).StatsElements[i]) && kind64(rin, cfg(a).StatsElements[i]))
 //@     && kindU8(rin, "flowEndReason") && kindStr(rin, "tcpState") && kindStr(rin, "httpVals") && allNS(a, rin)
-//@ pure exFields(a *AggregationProcess, rex entities.Record) bool =
-//@     hasName(rex, "flowEndSeconds") && kind32(rex, "flowEndSeconds")
-//@     && hasName(rex, "flowEndSecondsFromSourceNode") && kind32(rex, "flowEndSecondsFromSourceNode") && hasName(rex, "flowEndSecondsFromDestinationNode") && kind32(rex, "flowEndSecondsFromDestinationNode")
-//@     && (forall i in [0, len(cfg(a).StatsElements)): hasName(rex, cfg(a).StatsElements[i]) && kind64(rex, cfg(a).StatsElements[i])
+//@ pure exStats(a *AggregationProcess, rex entities.Record) bool =
+//@     (forall i in [0, len(cfg(a).StatsElements)): hasName(rex, cfg(a).StatsElements[i]) && kind64(rex, cfg(a).StatsElements[i])
 //@         && hasName(rex, cfg(a).AggregatedSourceStatsElements[i]) && kind64(rex, cfg(a).AggregatedSourceStatsElements[i])
 //@         && hasName(rex, cfg(a).AggregatedDestinationStatsElements[i]) && kind64(rex, cfg(a).AggregatedDestinationStatsElements[i]))
+//@ pure exThr(a *AggregationProcess, rex entities.Record) bool =
+//@     hasName(rex, "flowEndSecondsFromSourceNode") && kind32(rex, "flowEndSecondsFromSourceNode") && hasName(rex, "flowEndSecondsFromDestinationNode") && kind32(rex, "flowEndSecondsFromDestinationNode")
 //@     && (forall i in [0, len(cfg(a).ThroughputElements)): hasName(rex, cfg(a).ThroughputElements[i]) && kind64(rex, cfg(a).ThroughputElements[i])
 //@         && hasName(rex, cfg(a).SourceThroughputElements[i]) && kind64(rex, cfg(a).SourceThroughputElements[i])
 //@         && hasName(rex, cfg(a).DestinationThroughputElements[i]) && kind64(rex, cfg(a).DestinationThroughputElements[i]))
+//@ pure exFields(a *AggregationProcess, rex entities.Record) bool =
+//@     hasName(rex, "flowEndSeconds") && kind32(rex, "flowEndSeconds") && exStats(a, rex) && exThr(a, rex)
 //@     && kindU8(rex, "flowEndReason") && kindStr(rex, "tcpState") && kindStr(rex, "httpVals") && allNS(a, rex)
 //@ pure aggFields(a *AggregationProcess, rin entities.Record, rex entities.Record) bool = inFields(a, rin) && exFields(a, rex)
 //@ // aggOK: what aggregateRecords needs of the configuration, an incoming record and the record held for its flow
